@@ -1,6 +1,17 @@
 import subprocess, sys
 REPO="/repo"
 CASES=[
+ # --- fifth batch: the round-6 rules (Q10, N5, O5, W11, T13, P7, Q11, V7, D6) ---
+ ("C11","aldor/aldor/src/bigint.c","\telse if (bintLength(b) < bitsizeof(ULong)) {","\telse if (bitsizeof(ULong) > bintLength(b)) {"),
+ ("C11","aldor/aldor/src/bigint.c","\telse if (bintLength(b) < bitsizeof(ULong)) {","\telse if (bintLength(b) <= bitsizeof(ULong) - 1) {"),
+ ("C11","aldor/aldor/src/bigint.c","\tneg = bintIsNeg(a);\n\tif (neg)\n\t\ta = bintNegate(a);\n\n\tif (bintIsNeg(b))\n\t\tb = bintNegate(b);\n\t\n\tif (IsImmed(b)) {","\tneg = bintIsNeg(a);\n\tif (neg != 0)\n\t\ta = bintNegate(a);\n\n\tif (bintIsNeg(b))\n\t\tb = bintNegate(b);\n\t\n\tif (IsImmed(b)) {"),
+ ("C18","aldor/aldor/src/emit.c","\tif (emitKeep[FTYPENO_C] && !emitInfoIsAXLmain(finfo))\n\t\t; /* Keep */\n\telse if (strEqual(fnameType(emitSrcFile(finfo)), FTYPE_C))\n\t\t; /* Keep */\n\telse if (emitDo[FTYPENO_AXLMAINC] && emitInfoIsAXLmain(finfo))\n\t\t; /* Keep */\n\telse {","\tif (!emitInfoIsAXLmain(finfo) && emitKeep[FTYPENO_C])\n\t\t; /* Keep */\n\telse if (emitDo[FTYPENO_AXLMAINC] && emitInfoIsAXLmain(finfo))\n\t\t; /* Keep */\n\telse if (strEqual(fnameType(emitSrcFile(finfo)), FTYPE_C))\n\t\t; /* Keep */\n\telse {"),
+ ("C18","aldor/aldor/src/emit.c","\tif (emitKeep[FTYPENO_C] && !emitInfoIsAXLmain(finfo))\n\t\t; /* Keep */\n\telse if (strEqual(fnameType(emitSrcFile(finfo)), FTYPE_C))\n\t\t; /* Keep */\n\telse if (emitDo[FTYPENO_AXLMAINC] && emitInfoIsAXLmain(finfo))\n\t\t; /* Keep */\n\telse {","\tif (emitKeep[FTYPENO_C] && !emitInfoIsAXLmain(finfo))\n\t\treturn;\n\tif (strEqual(fnameType(emitSrcFile(finfo)), FTYPE_C))\n\t\treturn;\n\tif (emitDo[FTYPENO_AXLMAINC] && emitInfoIsAXLmain(finfo))\n\t\treturn;\n\t{"),
+ ("C05","aldor/aldor/src/emit.c","\tif (emitFileIdName)\n\t\treturn emitFileIdName;\n\tif (finfo->idName)\n\t\treturn finfo->idName;","\tif (emitFileIdName != NULL)\n\t\treturn emitFileIdName;\n\tif (finfo->idName != NULL)\n\t\treturn finfo->idName;"),
+ ("C05","aldor/aldor/src/emit.c","\tname = fnameName(emitSrcFile(finfo));\n\tif (emitFileIdPrefix)\n\t\tname = strConcat(emitFileIdPrefix, name);\n\n\treturn strCopy(name);","\tname = fnameName(emitSrcFile(finfo));\n\tif (!emitFileIdPrefix)\n\t\treturn strCopy(name);\n\n\treturn strCopy(strConcat(emitFileIdPrefix, name));"),
+ ("C03","aldor/aldor/src/fint.c","\t\tip = stmtPos;\n\t\t(void)fintEval(&expr); /* we ignore the ret value */\n\t\tbreak;\n\tcase FOAM_Label:","\t\tip = stmtPos;\n\t\tfintEval(&expr);\n\t\tbreak;\n\tcase FOAM_Label:"),
+ ("C02","aldor/aldor/src/of_cprop.c","\tif (foamTag(rhs) == FOAM_Cast)\n\t\trhs = rhs->foamCast.expr;\n\n\tif (cpIsTmpVar(rhs))\n\t\treturn rhs;\n\n\treturn NULL;","\tif (foamTag(rhs) == FOAM_Cast)\n\t\trhs = rhs->foamCast.expr;\n\n\treturn cpIsTmpVar(rhs) ? rhs : NULL;"),
+ ("C15","aldor/aldor/src/srcpos.c","# define sposSet(l, c) (((l) << SPOS_LNO_SHIFT) | ((c) << SPOS_CNO_SHIFT))","# define sposSet(l, c) (((c) << SPOS_CNO_SHIFT) | ((l) << SPOS_LNO_SHIFT))"),
  # --- fourth batch: the round-5 rules (T8, W10, S8, P6, L5, D5, K10, Q7, B8, T-sweep, G6, M6, J9, U5, B6) ---
  ("C03","aldor/aldor/src/genc.c","\tif (foamProgUsesFluids(gcvProg)) {\n\t\treturn ccoNew(CCO_Compound, 1, ccoMany2(gc0PopFluid(), ret));\n\t}\n\telse return ret;","\tif (!foamProgUsesFluids(gcvProg))\n\t\treturn ret;\n\treturn ccoNew(CCO_Compound, 1, ccoMany2(gc0PopFluid(), ret));"),
  ("C03","aldor/aldor/src/genc.c","\tif (foamProgUsesFluids(gcvProg)) {\n\t\treturn ccoNew(CCO_Compound, 1, ccoMany2(gc0PopFluid(), ret));\n\t}\n\telse return ret;","\tif (foamProgUsesFluids(gcvProg)) {\n\t\tCCode pop = gc0PopFluid();\n\t\tret = ccoNew(CCO_Compound, 1, ccoMany2(pop, ret));\n\t}\n\treturn ret;"),
@@ -88,7 +99,8 @@ CASES=[
  ("C08","aldor/aldor/src/comsg.c","\t\tnRemarks\t= 0;\n\t\tnNotes\t\t= 0;","\t\tnNotes\t\t= 0;\n\t\tnRemarks\t= 0;"),
  ("C04","aldor/aldor/src/genc.c","\tcc0 = gccExpr(foam->foamBCall.argv[0]);\n\tcc1 = gccExpr(foam->foamBCall.argv[1]);\n\tcc = ccoNew(ctag, 2, cc0, cc1);\n\n\treturn ccoMod(cc, gccExpr(foam->foamBCall.argv[2]));","\tCCode cc2;\n\tcc0 = gccExpr(foam->foamBCall.argv[0]);\n\tcc1 = gccExpr(foam->foamBCall.argv[1]);\n\tcc = ccoNew(ctag, 2, cc0, cc1);\n\tcc2 = gccExpr(foam->foamBCall.argv[2]);\n\n\treturn ccoMod(cc, cc2);"),
 ]
-for pid,f,old,new in CASES:
+N=int(sys.argv[1]) if len(sys.argv)>1 else len(CASES)
+for pid,f,old,new in CASES[:N]:
     p=REPO+"/"+f
     s=open(p).read()
     if s.count(old)!=1:
